@@ -11,13 +11,13 @@ dir=$(grep -m1 -oE 'internal/[a-z/]+' "$out/$x.notes.md" | head -1)
 pkgline=$(grep -m1 '^package ' "$demo" | awk '{print $2}')
 case "$pkgline" in cli) dest="$wt";; lexer) dest="$wt/internal/lexer";; fsm) dest="$wt/internal/fsm";; matcher) dest="$wt/internal/matcher";; values) dest="$wt/internal/values";; parser) dest="$wt/internal/parser";; flow) dest="$wt/internal/flow";; *) dest="$wt";; esac
 cp "$demo" "$dest/zz_seed_demo_test.go"
-cd "$dest" && clean=$(go test -vet=off -count=1 -run 'Demo|Seed' . 2>&1 | tail -1)
+cd "$dest" && clean=$(go test -vet=off -count=1 -run 'Demo|Seed|C[0-9][0-9][A-D]_' . 2>&1 | tail -1)
 cd "$wt" && git apply "$out/$x.patch.diff" || { echo "PATCH FAILS"; git -C /repo worktree remove --force "$wt"; exit 2; }
 rm "$dest/zz_seed_demo_test.go"
 build=$(go build ./... 2>&1 | tail -1)
 suite=$(go test -vet=off -count=1 ./... 2>&1 | grep -v "no test files" | grep -vc '^ok')
 cp "$demo" "$dest/zz_seed_demo_test.go"
-cd "$dest" && mut=$(go test -vet=off -count=1 -run 'Demo|Seed' . 2>&1 | tail -1)
+cd "$dest" && mut=$(go test -vet=off -count=1 -run 'Demo|Seed|C[0-9][0-9][A-D]_' . 2>&1 | tail -1)
 cd /; git -C /repo worktree remove --force "$wt"
 echo "$pid/$x clean_demo=[$clean] build=[$build] suite_failures=$suite mutated_demo=[$mut]"
 ok=0
